@@ -160,8 +160,11 @@ func (r *Report) Finish(w *World, verifDir string, loadErr error) int {
 	sort.Strings(rules)
 	if loadErr == nil {
 		for _, rule := range rules {
-			if counts[rule] < r.MinExpected[rule] {
-				r.Undecided(rule, "vacuity", "", fmt.Sprintf("rule matched %d constructs, fewer than the %d confirmed by hand: the rule lost its anchors", counts[rule], r.MinExpected[rule]))
+			// the count confirmed by hand on the pinned tree is halved: harmless refactorings merge or split the
+			// constructs a rule looks at; a rule that lost its anchors drops to (nearly) nothing
+			need := (r.MinExpected[rule] + 1) / 2
+			if counts[rule] < need {
+				r.Undecided(rule, "vacuity", "", fmt.Sprintf("rule matched %d constructs, fewer than %d (half of the %d confirmed by hand): the rule lost its anchors", counts[rule], need, r.MinExpected[rule]))
 			}
 		}
 	}
